@@ -312,6 +312,7 @@ class _Inliner:
                 if d is None:
                     return None
                 bind[p] = d
+        fn = self._default_idiom(fn, bind)
         assigned = {x.id for x in ast.walk(fn) if isinstance(x, ast.Name) and isinstance(x.ctx, (ast.Store, ast.Del))}
         for x in ast.walk(fn):
             if isinstance(x, ast.ExceptHandler) and x.name:
@@ -370,6 +371,44 @@ class _Inliner:
             return [ast.Assign(targets=[ast.Name(id=ret, ctx=ast.Store())], value=v if v is not None else ast.Constant(value=None))]
         stmts = prefix + _conv(body, make)
         return stmts, ret
+
+    def _is_function_ref(self, a):
+        if isinstance(a, ast.Attribute) and isinstance(a.value, (ast.Name, ast.Attribute)):
+            mod = ast.unparse(a.value).split('.')[-1]
+            tree = self.mods.get(mod)
+            return tree is not None and any(isinstance(x, ast.FunctionDef) and x.name == a.attr for x in tree.body)
+        return False
+
+    def _default_idiom(self, fn, bind):
+        """`if p is None: p = <pure>` at the top of the helper, with a constant passed for p: decided here, so that p stays a plain
+        substitution instead of a re-bound temporary.  Returns fn or a copy with those statements resolved (bind is updated)."""
+        body = list(fn.body)
+        start = 1 if body and isinstance(body[0], ast.Expr) and isinstance(body[0].value, ast.Constant) else 0
+        new = body[:start]
+        changed = False
+        i = start
+        while i < len(body):
+            s = body[i]
+            if isinstance(s, ast.If) and not s.orelse and len(s.body) == 1 and isinstance(s.body[0], ast.Assign) and len(s.body[0].targets) == 1 \
+                    and isinstance(s.body[0].targets[0], ast.Name) and isinstance(s.test, ast.Compare) and len(s.test.ops) == 1 \
+                    and isinstance(s.test.ops[0], ast.Is) and isinstance(s.test.left, ast.Name) and s.test.left.id == s.body[0].targets[0].id \
+                    and isinstance(s.test.comparators[0], ast.Constant) and s.test.comparators[0].value is None:
+                p = s.test.left.id
+                a = bind.get(p)
+                others = sum(1 for x in ast.walk(fn) if isinstance(x, ast.Name) and x.id == p and isinstance(x.ctx, (ast.Store, ast.Del)))
+                if (isinstance(a, ast.Constant) or self._is_function_ref(a)) and others == 1 and _pure(s.body[0].value) \
+                        and not any(isinstance(x, ast.Name) and x.id == p for x in ast.walk(s.body[0].value)):
+                    if isinstance(a, ast.Constant) and a.value is None:
+                        bind[p] = s.body[0].value
+                    changed = True
+                    i += 1
+                    continue
+            break
+        if not changed:
+            return fn
+        new = copy.copy(fn)
+        new.body = body[:start] + body[i:]
+        return new
 
     def _process_list(self, stmts, cands, caller=None):
         changed = False
@@ -535,12 +574,25 @@ def _truth(e):
     return None
 
 
-def _prune(stmts):
+class _ConstIfExp(ast.NodeTransformer):
+    def visit_IfExp(self, node):
+        self.generic_visit(node)
+        t = _truth(node.test)
+        if t is True:
+            return node.body
+        if t is False:
+            return node.orelse
+        return node
+
+
+def _prune(stmts, top=True):
+    if top:
+        stmts = [_ConstIfExp().visit(s) for s in stmts]
     out = []
     for s in stmts:
         if isinstance(s, ast.If):
-            s.body = _prune(s.body)
-            s.orelse = _prune(s.orelse)
+            s.body = _prune(s.body, False)
+            s.orelse = _prune(s.orelse, False)
             t = _truth(s.test)
             if t is True:
                 out.extend(s.body)
@@ -555,19 +607,47 @@ def _prune(stmts):
 
 
 def _dead_after(caller, s, name):
-    """No read of ``name`` in ``caller`` after statement ``s`` (in source order), and s is not inside a loop."""
-    line = getattr(s, 'end_lineno', None) or getattr(s, 'lineno', None)
-    if line is None:
-        return False
+    """No read of ``name`` in ``caller`` can execute after statement ``s``: not in the statements that follow s in its block or
+    in the blocks enclosing it (the other branch of an enclosing `if` does not follow it), and s is not inside a loop."""
     for x in ast.walk(caller):
         if isinstance(x, (ast.For, ast.While)) and any(s is y for y in ast.walk(x)):
             return False
-    for x in ast.walk(caller):
-        if isinstance(x, ast.Name) and x.id == name and isinstance(x.ctx, ast.Load) and getattr(x, 'lineno', 0) > line:
-            return False
         if isinstance(x, (ast.FunctionDef, ast.Lambda)) and x is not caller and any(isinstance(y, ast.Name) and y.id == name for y in ast.walk(x)):
             return False
-    # reads on the same line but outside the statement (should not happen) are ignored
+
+    def path(node):
+        """[(parent statement, field, index)] from the caller's body down to s."""
+        for fld in ('body', 'orelse', 'finalbody', 'handlers'):
+            lst = getattr(node, fld, None)
+            if not isinstance(lst, list):
+                continue
+            for i, c in enumerate(lst):
+                if c is s:
+                    return [(node, fld, i)]
+                if isinstance(c, (ast.stmt, ast.ExceptHandler)):
+                    sub = path(c)
+                    if sub is not None:
+                        return [(node, fld, i)] + sub
+        return None
+    p = path(caller)
+    if p is None:
+        return False
+    later = []
+    for parent, fld, i in p:
+        lst = getattr(parent, fld)
+        if fld == 'handlers':
+            later.extend(getattr(parent, 'finalbody', []))
+            continue
+        later.extend(lst[i + 1:])
+        if isinstance(parent, ast.Try):
+            if fld == 'body':
+                later.extend(parent.handlers + parent.orelse + parent.finalbody)
+            elif fld == 'orelse':
+                later.extend(parent.finalbody)
+    for st in later:
+        for x in ast.walk(st):
+            if isinstance(x, ast.Name) and x.id == name and isinstance(x.ctx, ast.Load):
+                return False
     return True
 
 
@@ -587,11 +667,25 @@ def _replace_node(root, old, new):
 
 _OPERATOR = {'and_': ast.BitAnd, 'or_': ast.BitOr, 'xor': ast.BitXor, 'add': ast.Add, 'sub': ast.Sub, 'mul': ast.Mult,
              'lshift': ast.LShift, 'rshift': ast.RShift, 'floordiv': ast.FloorDiv, 'truediv': ast.Div, 'mod': ast.Mod,
-             'iand': ast.BitAnd, 'ior': ast.BitOr, 'ixor': ast.BitXor}
+             }
+_OPERATOR_INPLACE = {'iand': ast.BitAnd, 'ior': ast.BitOr, 'ixor': ast.BitXor, 'iadd': ast.Add, 'isub': ast.Sub, 'imul': ast.Mult,
+                     'ilshift': ast.LShift, 'irshift': ast.RShift}
 
 
 class _OperatorCalls(ast.NodeTransformer):
-    """operator.and_(a, b) -> a & b (what it means), so that an operator handed to a merged helper reads as the operator."""
+    """operator.and_(a, b) -> a & b (what it means), so that an operator handed to a merged helper reads as the operator.
+    The in-place forms are only rewritten where they mean exactly an augmented assignment: `X = operator.ior(X, Y)` -> `X |= Y`
+    (anywhere else they stay calls: `a | b` would hide that the left operand is modified)."""
+    def visit_Assign(self, node):
+        v = node.value
+        if isinstance(v, ast.Call) and isinstance(v.func, ast.Attribute) and isinstance(v.func.value, ast.Name) and v.func.value.id == 'operator' \
+                and v.func.attr in _OPERATOR_INPLACE and len(v.args) == 2 and not v.keywords and len(node.targets) == 1 \
+                and isinstance(node.targets[0], (ast.Name, ast.Attribute)) and ast.unparse(node.targets[0]) == ast.unparse(v.args[0]):
+            self.generic_visit(v.args[1])
+            return ast.copy_location(ast.AugAssign(target=node.targets[0], op=_OPERATOR_INPLACE[v.func.attr](), value=v.args[1]), node)
+        self.generic_visit(node)
+        return node
+
     def visit_Call(self, node):
         self.generic_visit(node)
         f = node.func
